@@ -20,8 +20,14 @@ MANIFEST = dict(
               "termination by an explicit fuel bound) + differential correspondence with the implementation",
     text="Lean, for every tree, every string (well-formed or not), every fuel, dict and list roots. "
          "(1) Equations, no hypothesis: get returns what item access returns and the caller's default exactly when item access "
-         "raises one of the funnelled classes or a plain missing key (C04_default_iff_miss); first is get with single-match "
-         "unwrapping (C04_first_eq); '?'-prefixed item access never raises a funnelled class and yields '' on a miss (C04_qmark, "
+         "raises one of the funnelled classes or a plain missing key (C04_default_iff_miss); first (fix C04-f: it looks the path up with a private marker object as default, hands "
+         "the caller's default back untouched when the marker returns and unwraps only a FOUND one-element list) is modelled "
+         "with getCoreS, the marker-valued transcription of _get, proved to be getCore with the marker replaced by the default "
+         "for every root, path and flag (C04_marker_lookup); C04_first_eq is its defining equation, "
+         "C04_first_default_identity: when the lookup first performs (return_lists=False, asked to raise) raises a funnelled "
+         "class or the KeyError of a plain missing key, first returns exactly the default d, whatever value d is - ['D'], "
+         "[None], [[]] included (before the fix: 'D', None, []); C04_first_hit: when it resolves to v, first returns v with a "
+         "one-element list unwrapped, for every default; '?'-prefixed item access never raises a funnelled class and yields '' on a miss (C04_qmark, "
          "C04_qmark_miss_is_empty). "
          "(2) Purity and totality, proved under the hypothesis that the text 'new()' occurs neither in the path (Safe) nor in a "
          "dict key of the tree (SafeTree): the resolver n0dict._find / n0list._find, all branches ('..', '*', '[*]', conditions, "
@@ -73,11 +79,26 @@ MANIFEST = dict(
          "The model of every lookup entry point (dict and list roots) is compared with the real code on token soup over the "
          "full xpath alphabet and on misses derived from real paths; the statement is executed on the implementation (no "
          "exception from get/first, default iff item access raises, only the five allowed classes from item access, tree "
-         "unchanged).",
+         "unchanged). The defaults passed are 'DFLT', None (also omitted), ['D'], ('D',), [None], [[]], {}, 0, '', [1, 2], [] "
+         "and the oracle on a miss is IDENTITY: get(miss, d) is d and first(miss, d) is d ('' for a '?' path); on a hit first "
+         "must not hand the default object out (evaluators lookup, lookup/exhaustive, lookup/new-step, lookup/long; the "
+         "correspondence streams carry the list / dict / '' defaults too - the value model has no tuples). "
+         "'..' steps (fix C04-g: a '..' that surfaces to the ROOT as the last step of the path finds the root - before, the "
+         "FOUND branch built the found text from the root's missing name: TypeError, i.e. a miss for a path that resolves; "
+         "d.delete('x/../s') removed s and then raised): C04_up_to_root (k/.. for a plain key k of a dict root returns the root "
+         "through item access, get and first, every fuel >= 3, every default; token level C04_up_to_root_find: the result _find "
+         "reports for an empty xpath); the purity, termination and selection proofs were rebuilt through the changed branch. "
+         "Deeper shapes (k[i]/.., a/b/../.., below a selecting step, list roots) by examples through the model, stream xp.get/up "
+         "and evaluator lookup/up: the canonical path of a random node followed by 1..n '..' steps (n = its number of steps; "
+         "name[i] is one step), optionally one step down again, dict and list roots, must resolve - item access, '?', get, "
+         "first return the ancestor object itself, tree unchanged.",
     note="known finding C04-d: a dict key named '*' (or '..' below a '*' step) makes a '*' step recurse until the interpreter's "
          "limit: every such lookup is a miss, also N({'*': {'x': 1}})['*/x'] which resolves (trees of the harness have plain-name "
          "keys, so the streams do not meet it). Paths with a '[new()]' step are generated and "
-         "checked like all others since fix C04-a.",
+         "checked like all others since fix C04-a. Known finding C04-h: a '..' step directly below a SCALAR element that the "
+         "list-side search reached (list root, index steps only: [[5, 6]]['[0][1]/..']) raises TypeError although the path "
+         "resolves - n0list._find refuses every step below a scalar; the model reproduces it (C04_up_below_list_scalar_cex), "
+         "lookup/up suppresses exactly that class.",
     design_ref="5/C04",
 )
 
@@ -85,6 +106,8 @@ ATOMS = ["a", "b", "C", "k", "name", "id", "f", "/", "/", "//", "[", "]", "*", "
          "=", "!=", "~", "'", '"', " ", "v", "][", "[0]", "[*]", "[-1]", "[last()]", "==", "x y", "contains(", ")", ","]
 
 ALLOWED = ("KeyError", "IndexError", "ValueError", "TypeError", "SyntaxError")
+# defaults of the correspondence streams (the value model has no tuples: lists stand for them)
+B_DEFAULTS = [None, "D", 0, None, "D", ["D"], [None], [[]], {}, "", [1, 2], []]
 
 
 def soup(rng):
@@ -154,6 +177,28 @@ def in_known(c, detail=None):
     return None
 
 
+# defaults a caller may pass (fix C04-f: first() unwrapped a default that was a one-element list / tuple).  The first two are
+# tried on every case, of the others a case gets two, picked by its path text (or all with c["all_defaults"]).
+def other_defaults():
+    """fresh objects on every call: the oracle is IDENTITY (`first(miss, d) is d`, `get(miss, d) is d`)"""
+    return [["D"], ("D",), [None], [[]], {}, 0, "", [1, 2], []]
+
+
+def defaults_of(c):
+    import zlib
+
+    others = other_defaults()
+    if c.get("all_defaults"):
+        return ["DFLT", None] + others
+    h = zlib.crc32(c["xp"].encode("utf-8", "surrogatepass"))
+    i, j = h % len(others), (h // 16) % len(others)
+    return ["DFLT", None, others[i]] + ([others[j]] if j != i else [])
+
+
+def is_container(d):
+    return isinstance(d, (list, tuple, dict))
+
+
 def check_lookup(c):
     o = X.convert(c["tree"], c["mode"])
     before = enc_val(o)
@@ -169,31 +214,29 @@ def check_lookup(c):
         return {"path_resolves_to_another_value": repr(item[1])[:200], "want": repr(X.get_at(o, c["hit_pos"]))[:200]}
     if xp.startswith("?") and item[0] == "err":
         return {"qmark_item_access_raised": item[1]}
-    for d in ("DFLT", None):
+    for d in defaults_of(c):
         g = core.call(lambda: o.get(xp, d) if d is not None else o.get(xp))
         if g[0] != "ok":
-            return {"get_raised": g[1], "default": d}
+            return {"get_raised": g[1], "default": repr(d)}
         if enc_val(o) != before:
             return {"get_changed_tree": True}
-        want_d = "" if xp.startswith("?") else d
         if item[0] == "err":
-            if not same(g[1], want_d):
-                return {"get_returned": repr(g[1])[:200], "item_access_raised": item[1], "want_default": want_d}
+            # a miss: the caller's default ITSELF ('' for a '?' path), whatever value it is
+            if not (same(g[1], "") if xp.startswith("?") else g[1] is d):
+                return {"get_returned": repr(g[1])[:200], "item_access_raised": item[1], "want_default": repr(d)}
         else:
-            if xp.startswith("?") and same(item[1], ""):
-                pass
             if not same(g[1], item[1]):
                 return {"get_returned": repr(g[1])[:200], "item_access_returned": repr(item[1])[:200]}
         f = core.call(lambda: o.first(xp, d) if d is not None else o.first(xp))
         if f[0] != "ok":
-            return {"first_raised": f[1], "default": d}
+            return {"first_raised": f[1], "default": repr(d)}
         if enc_val(o) != before:
             return {"first_changed_tree": True}
-        if item[0] == "err" and not same(f[1], want_d):
-            return {"first_returned": repr(f[1])[:200], "item_access_raised": item[1], "want_default": want_d}
-        if item[0] == "ok" and d == "DFLT" and not xp.startswith("?") and same(f[1], "DFLT"):
+        if item[0] == "err" and not (same(f[1], "") if xp.startswith("?") else f[1] is d):
+            return {"first_returned": repr(f[1])[:200], "item_access_raised": item[1], "want_default": repr(d)}
+        if item[0] == "ok" and not xp.startswith("?") and (d == "DFLT" or is_container(d)) and f[1] is d:
             # the path resolves (item access and get return a value): first must not answer with the default
-            return {"first_returned_default": True, "item_access_returned": repr(item[1])[:200]}
+            return {"first_returned_default": repr(d), "item_access_returned": repr(item[1])[:200]}
     return None
 
 
@@ -464,7 +507,7 @@ def check_long(c):
         return {"qmark_item_access_raised": q[1], "steps": steps}
     if not (q[1] is want if item[0] == "ok" else same(q[1], "")):
         return {"qmark_item_access_returned": repr(q[1])[:100], "item_access": item[0], "steps": steps}
-    for d in ("DFLT", None):
+    for d in ["DFLT", None, ["D"], other_defaults()[steps % 9]]:     # a long lookup is expensive: four defaults
         g = core.call(lambda: o.get(xp, d) if d is not None else o.get(xp))
         f = core.call(lambda: o.first(xp, d) if d is not None else o.first(xp))
         if g[0] != "ok":
@@ -478,10 +521,10 @@ def check_long(c):
             if f[1] is not unwrapped:
                 return {"first_returned": repr(f[1])[:100], "steps": steps}
         else:
-            if not same(g[1], d):
-                return {"get_returned": repr(g[1])[:100], "item_access_raised": item[1], "want_default": d, "steps": steps}
-            if not same(f[1], d):
-                return {"first_returned": repr(f[1])[:100], "item_access_raised": item[1], "want_default": d, "steps": steps}
+            if g[1] is not d:
+                return {"get_returned": repr(g[1])[:100], "item_access_raised": item[1], "want_default": repr(d), "steps": steps}
+            if f[1] is not d:
+                return {"first_returned": repr(f[1])[:100], "item_access_raised": item[1], "want_default": repr(d), "steps": steps}
     if flat_sig(o) != before:
         return {"lookup_changed_tree": True, "steps": steps}
     return None
@@ -506,7 +549,92 @@ def gen_long(rng, ctx_thorough):
     return {"long": {"kind": "chain", "n": 700, "kinds": "d", "merged": False, "lead": ""}}
 
 
+# ---------------------------------------------------------------------------------------------------------
+# '..' steps (fix C04-g): a path of real steps followed by '..' steps resolves to the ancestor they climb to - the ROOT
+# included when '..' is the last step (before the fix: TypeError, i.e. a miss).  '..' goes up one STEP of the path; name[i]
+# is one step (the i-th `name` of its parent), an index below an index is a step of its own.
+# ---------------------------------------------------------------------------------------------------------
+def path_step_ends(pos):
+    """prefix lengths of pos at which a step of the canonical path a/b[0][1]/c ends: [1, 3, 4, 5] for (a, b, 0, 1, c)"""
+    ends = []
+    for k, s in enumerate(pos):
+        if isinstance(s, int) and k > 0 and isinstance(pos[k - 1], str):
+            ends[-1] = k + 1            # name[i]: the index belongs to the step of the name
+        else:
+            ends.append(k + 1)
+    return ends
+
+
+def up_case_parts(c):
+    """(container, path text, the node the path addresses)"""
+    tree, pos, up = c["tree"], c["pos"], c["up"]
+    o = X.convert(tree, c["mode"])
+    ends = [0] + path_step_ends(pos)
+    n = len(ends) - 1                    # number of steps
+    assert 1 <= up <= n
+    xp = c.get("lead", "") + X.render_rel(tree, tuple(pos)) + "/.." * up
+    reach = n - up                       # steps left
+    if c.get("down"):
+        # ... and the step just left once more: back at the node one step below
+        seg = pos[ends[reach]:ends[reach + 1]]
+        if isinstance(seg[0], str):
+            xp += "/" + seg[0] + "".join("[%d]" % i for i in seg[1:])
+        else:
+            xp += "[%d]" % seg[0]
+        reach += 1
+    return o, xp, X.get_at(o, pos[:ends[reach]])
+
+
+def check_up(c):
+    o, xp, want = up_case_parts(c)
+    before = enc_val(o)
+    item = core.call(lambda: o[xp])
+    if item[0] != "ok":
+        return {"path_resolves_but_item_access_raised": item[1], "xp": xp}
+    if item[1] is not want:
+        return {"item_access_returned": repr(item[1])[:200], "want": repr(want)[:200], "xp": xp}
+    q = core.call(lambda: o["?" + xp])
+    if q[0] != "ok" or q[1] is not want:
+        return {"qmark_item_access": repr(q)[:200], "xp": xp}
+    for d in ["DFLT", None, ["D"], {}]:
+        g = core.call(lambda: o.get(xp, d) if d is not None else o.get(xp))
+        if g[0] != "ok" or g[1] is not want:
+            return {"get_returned": repr(g)[:200], "want": repr(want)[:200], "default": repr(d), "xp": xp}
+        f = core.call(lambda: o.first(xp, d) if d is not None else o.first(xp))
+        unwrapped = want[0] if isinstance(want, (list, tuple)) and len(want) == 1 else want
+        if f[0] != "ok" or f[1] is not unwrapped:
+            return {"first_returned": repr(f)[:200], "want": repr(unwrapped)[:200], "default": repr(d), "xp": xp}
+    if enc_val(o) != before:
+        return {"lookup_changed_tree": True, "xp": xp}
+    return None
+
+
+def below_list_side_scalar(c, detail=None):
+    """class of the open finding C04-h: the steps before the first '..' are index steps only, from a LIST root, and end on a
+    scalar - the list-side search (n0list._find) refuses any step below a scalar element, '..' included"""
+    if isinstance(c.get("tree"), list) and "pos" in c and all(isinstance(s, int) for s in c["pos"]) \
+            and not isinstance(X.get_at(c["tree"], c["pos"]), (dict, list)):
+        return "C04-h"
+    return None
+
+
+def gen_up(rng):
+    for _ in range(50):
+        t = X.gen_plain(rng, rng.choice([1, 2, 3, 4]), rng.choice("dddl"))
+        poss = [p for p, _ in X.positions(t) if p]
+        if not poss:
+            continue
+        p = list(rng.choice(poss))
+        n = len(path_step_ends(p))
+        up = rng.choice([1, n, n, rng.randrange(1, n + 1)])
+        return {"tree": t, "mode": rng.choice(["n0", "wrap"]), "pos": p, "up": up, "lead": rng.choice(["", "", "/", "//"]),
+                "down": rng.random() < 0.3}
+    return {"tree": {"a": 1}, "mode": "n0", "pos": ["a"], "up": 1, "lead": "", "down": False}
+
+
 def checker_of(evaluator):
+    if "/up" in (evaluator or ""):
+        return check_up
     if "long" in (evaluator or ""):
         return check_long
     return check_depth if "depth" in (evaluator or "") else check_lookup
@@ -532,7 +660,7 @@ def shrink_failure(evaluator, case):
             else:
                 lo = mid + 1
         return best
-    if case.get("expect_hit"):
+    if case.get("expect_hit") or "up" in case:
         return case  # the path was derived from this very tree: a smaller tree would fail for another reason
     chk = checker_of(evaluator)
     xp0 = case.get("xp")
@@ -555,6 +683,8 @@ def replay(rp):
 
 def witness_fails(f):
     w = f["witness"]
+    if "up" in w:
+        return check_up(w) is not None and below_list_side_scalar(w) == f["id"]
     return check_lookup({"tree": w["tree"], "mode": w.get("mode", "n0"), "xp": w["xp"], "expect_hit": w.get("expect_hit", False)}) is not None
 
 
@@ -598,7 +728,7 @@ def run(ctx):
     ctx.extra["exhaustive_subspace"] = "all strings of <= %d atoms over %d xpath atoms on %d fixed trees (dict root and list root)" % (k, len(atoms), len(fixed))
     cases = cases + ex
     rng = ctx.rng("kinds")
-    lk = [dict(c, kind=rng.choice("gif"), d=rng.choice([None, "D", 0])) for c in cases]
+    lk = [dict(c, kind=rng.choice("gif"), d=rng.choice(B_DEFAULTS)) for c in cases]
 
     def impl_get(c):
         o = X.convert(c["tree"], c["mode"])
@@ -627,7 +757,7 @@ def run(ctx):
         poss = [p for p, _ in X.positions(t) if p]
         base = X.render(rng, t, rng.choice(poss)) if poss and rng.random() < 0.9 else ""
         xp = rng.choice(["", "?"]) + base + "[new()]" + rng.choice(["", "", "/x", "[0]", "/..", "[new()]", "/*"])
-        ncases.append({"tree": t, "mode": rng.choice(["n0", "wrap"]), "xp": xp, "kind": rng.choice("gif"), "d": rng.choice([None, "D", 0])})
+        ncases.append({"tree": t, "mode": rng.choice(["n0", "wrap"]), "xp": xp, "kind": rng.choice("gif"), "d": rng.choice(B_DEFAULTS)})
     ctx.evaluate("lookup/new-step", ncases, check_lookup, in_known=in_known)
     ctx.correspond(
         "xp.get/new-step",
@@ -646,7 +776,7 @@ def run(ctx):
     ctx.evaluate("lookup/long", lcases, check_long,
                  nontrivial=lambda c: True)
     # B on the part below the interpreter's limit: the model resolves them like the implementation (small trees only)
-    lb = [dict(c, xp=long_xp(c), kind=rng.choice("gif"), d=rng.choice([None, "D"])) for c in lcases
+    lb = [dict(c, xp=long_xp(c), kind=rng.choice("gif"), d=rng.choice(B_DEFAULTS)) for c in lcases
           if c["long"]["kind"] == "updown" and long_case_parts(c)[2] <= SAFE_STEPS]
     ctx.correspond(
         "xp.get/long",
@@ -662,6 +792,25 @@ def run(ctx):
         "required_to_resolve(<=SAFE_STEPS)": sum(1 for c in lcases if long_case_parts(c)[2] <= SAFE_STEPS),
         "SAFE_STEPS": SAFE_STEPS,
         "compared_with_model": len(lb),
+    }
+    # ---- '..' steps up to an ancestor, the root included (fix C04-g)
+    rng = ctx.rng("up-steps")
+    ucases = [gen_up(rng) for _ in range(ctx.budget(250, 6000))]
+    ucases.append({"tree": {"a": 1, "l": [{"k": 1}], "x": {"y": 2}, "s": 5}, "mode": "n0", "pos": ["a"], "up": 1, "lead": "", "down": False})
+    ucases.append({"tree": {"a": 1, "l": [{"k": 1}], "x": {"y": 2}, "s": 5}, "mode": "n0", "pos": ["l", 0], "up": 1, "lead": "", "down": False})
+    ucases.append({"tree": [{"a": [[1, 2]]}], "mode": "n0", "pos": [0, "a", 0, 1], "up": 3, "lead": "", "down": False})
+    ctx.evaluate("lookup/up", ucases, check_up, in_known=below_list_side_scalar, nontrivial=lambda c: True)
+    ub = [dict(c, xp=up_case_parts(c)[1], kind=rng.choice("gif"), d=rng.choice(B_DEFAULTS)) for c in ucases]
+    ctx.correspond(
+        "xp.get/up",
+        ub,
+        lambda c: "xp.get %s %s %s %s" % (c["kind"], enc_str(c["xp"]), enc_val(c["d"]), enc_val(X.convert(c["tree"], c["mode"]))),
+        impl_get,
+    )
+    ctx.extra["up_steps"] = {
+        "cases": len(ucases),
+        "reach_the_root_as_last_step": sum(1 for c in ucases if c["up"] == len(path_step_ends(c["pos"])) and not c["down"]),
+        "list_root": sum(1 for c in ucases if isinstance(c["tree"], list)),
     }
     # ---- termination: the proven fuel bound (C04_fuel_bound) fed back into the check
     safe = [c for c in lk + ncases if safe_case(c)]
